@@ -181,3 +181,17 @@ package logreader
 //@   dead return 4
 //@   dead return 8
 //@   modifies shOf(l, clusterID).cache.buffer, elems(shOf(l, clusterID).cache.buffer, len(shOf(l, clusterID).cache.buffer), cap(shOf(l, clusterID).cache.buffer))
+
+// ---------------------------------------------------------------- invalidation entry points (C06)
+
+// what is VERIFIED of the two entry points the engine calls (secondary contracts, checked against the
+// bodies; the engine's own contracts count the calls): the shard's cache object is dropped from the
+// map - the next query of that shard starts from an empty cache
+//@ func (*ShardCache).LogCompacted#drop
+//@   requires l != nil && l.shardCache != nil
+//@   ensures [C06.compact.drop] !has(l.shardCache.m, shardID)
+//@   modifies elems(l.shardCache.m)
+//@ func (*ShardCache).NodeDeleted#drop
+//@   requires l != nil && l.shardCache != nil
+//@   ensures [C06.deleted.drop] !has(l.shardCache.m, shardID)
+//@   modifies elems(l.shardCache.m)
